@@ -17,7 +17,7 @@ func ScalarmultKey(p, a types.Key) (ret types.Key, err error) {
 		return ret, err
 	}
 	k := [32]byte(a)
-	return types.Key(encodePoint(intMult(&k, pt))), nil
+	return types.Key(encodePoint(geScalarmult(&k, pt))), nil
 }
 
 // ScalarmultBase returns a*G.
@@ -32,10 +32,10 @@ func SkpkGen() (sk types.Key, pk types.Key) {
 	return types.Key(scBytes(s)), types.Key(encodePoint(new(ed.Point).ScalarBaseMult(s)))
 }
 
-// ScalarmultH returns a*H.
+// ScalarmultH returns a*H (ge_scalarmult, like ScalarmultKey).
 func ScalarmultH(a types.Key) (ret types.Key) {
 	k := [32]byte(a)
-	return types.Key(encodePoint(hMult(&k)))
+	return types.Key(encodePoint(geScalarmult(&k, pointH)))
 }
 
 // ZeroCommit returns G + amount*H (commitment with mask 1).
